@@ -474,7 +474,8 @@ def check_table(p, res, rname, fq, message, detectors=()):
     n = 0
     from .tables_spec import META
     same_locals = META.get(fq, {}).get('locals') == dtable.local_count(p, f, **kw)
-    results = [(label, dtable.check_rows(hrows, wrows, same_locals)) for (label, hrows), (_, wrows) in zip(have, want)]
+    fresh = {'params': set(f.params[1:] if f.cls is not None else f.params), 'text': '\n'.join([k for _, rows in want for c, _ in rows for k in c] + [o for _, rows in want for _, o in rows])}
+    results = [(label, dtable.check_rows(hrows, wrows, same_locals, fresh)) for (label, hrows), (_, wrows) in zip(have, want)]
     # the segments of one function are coupled through the loop-carried values (_acc_/_fin_): when one of them can no longer be
     # compared (restructured loop), a difference in another one is not a positively identified change
     coupled = any(st == 'unknown' for _, (st, _) in results) and len(results) > 1
